@@ -33,7 +33,7 @@ inductive Profile where
 inductive Out (α : Type) where
   | ok (a : α)
   | panic
-  deriving Repr, Inhabited
+  deriving Repr, Inhabited, DecidableEq
 
 namespace Out
 @[inline] def bind {α β} : Out α → (α → Out β) → Out β
